@@ -282,12 +282,12 @@ func init() {
 				ast.Inspect(fd.Body, func(n ast.Node) bool {
 					switch x := n.(type) {
 					case *ast.IndexExpr:
-						sites = append(sites, fmt.Sprintf("%s:%s:index:%s", base, fd.Name.Name, src(x)))
+						sites = append(sites, fmt.Sprintf("%s:%s:index", base, fd.Name.Name))
 					case *ast.SliceExpr:
-						sites = append(sites, fmt.Sprintf("%s:%s:slice:%s", base, fd.Name.Name, src(x)))
+						sites = append(sites, fmt.Sprintf("%s:%s:slice", base, fd.Name.Name))
 					case *ast.TypeAssertExpr:
 						if x.Type != nil && !commaOk[x] {
-							sites = append(sites, fmt.Sprintf("%s:%s:assert:%s", base, fd.Name.Name, src(x)))
+							sites = append(sites, fmt.Sprintf("%s:%s:assert", base, fd.Name.Name))
 						}
 					case *ast.CallExpr:
 						if id, ok := x.Fun.(*ast.Ident); ok && id.Name == "panic" {
@@ -298,11 +298,19 @@ func init() {
 				})
 			}
 		}
+		sort.Strings(sites)
+		uniq := sites[:0]
+		for i, s := range sites {
+			if i == 0 || s != sites[i-1] {
+				uniq = append(uniq, s)
+			}
+		}
+		sites = uniq
 		qs := []string{}
 		for _, s := range sites {
 			qs = append(qs, "  "+leanStr(s))
 		}
-		fmt.Fprintf(b, "/-- every index / slice / unchecked type assertion / explicit panic call in the handshake files -/\ndef panicSites : List String := [\n%s]\n", strings.Join(qs, ",\n"))
+		fmt.Fprintf(b, "/-- file:function:kind of every index / slice / unchecked type assertion / explicit panic call in the handshake files -/\ndef panicSites : List String := [\n%s]\n", strings.Join(qs, ",\n"))
 
 		// ---- C04: the mustSecure guard at the five Connect sites and Upstreams.open
 		c4 := o.w("C04.lean")
